@@ -28,8 +28,13 @@ type varSpec struct {
 	byName bool        // by-name addressing is defined for this type (value type == variable type)
 }
 
+// wrongType is never the type of a mocked variable.
+type wrongType struct{ X int }
+
 // heapVars: the original is a heap object referenced only by the variable; GC is in their alphabet
 var heapVars = map[string]bool{"vHeapMap": true, "vHeapPtr": true, "vHeapSlice": true, "vHeapIface": true}
+
+var ifaceVars = map[string]bool{"vINil": true, "vI7": true, "vErr": true, "vHeapIface": true}
 
 var errA, errB, errC = errors.New("a"), errors.New("b"), errors.New("c")
 
@@ -157,11 +162,13 @@ const (
 	opLookup
 	opCancel
 	opReset
+	opSetBad  // Set with a value of another type through a by-pointer mocker: rejected (panic), must change nothing
+	opForeign // the program itself assigns the variable (not through goom)
 	nOps
 	opGC = 100 // builder-independent; only in the alphabet of heap-original variables
 )
 
-var opNames = []string{"Set1", "Set2", "Apply3", "Lookup", "Cancel", "Reset"}
+var opNames = []string{"Set1", "Set2", "Apply3", "Lookup", "Cancel", "Reset", "SetWrongType", "ForeignWrite"}
 
 // Case is the replayable artefact.
 type Case struct {
@@ -280,6 +287,11 @@ func run(sp *varSpec, byName bool, ops []int) (fail string, judged bool) {
 				h[bi].Cancel()
 			case opReset:
 				b[bi].Reset()
+			case opSetBad:
+				// rejected by reflect (panic): recovered here, like a test using assert.Panics would
+				vk.Try(func() { h[bi].Set(wrongType{1}) })
+			case opForeign:
+				reflect.ValueOf(sp.ptr).Elem().Set(reflect.ValueOf(sp.v[2]))
 			}
 		})
 		if panicked {
@@ -294,6 +306,8 @@ func run(sp *varSpec, byName bool, ops []int) (fail string, judged bool) {
 				m[bi].everMocked, m[bi].first = true, curLit
 			}
 			cur, curLit = sp.v[o], sp.v[o]
+		case opForeign:
+			cur, curLit = sp.v[2], sp.v[2]
 		case opCancel, opReset:
 			if m[bi].recorded {
 				cur = m[bi].origin
@@ -374,9 +388,9 @@ func Run(c *vk.Ctx) {
 		vk.Fatalf("unknown var %s", cs.Var)
 	}
 
-	depth, nb := 5, 1
+	depth, nb, heapDepth := 5, 1, 4
 	if c.Thorough() {
-		depth, nb = 6, 2
+		depth, nb, heapDepth = 6, 2, 5
 	}
 	alpha := nOps * nb
 	var idx int64
@@ -407,7 +421,7 @@ func Run(c *vk.Ctx) {
 					cs := Case{sp.name, byName, opsToStrings(prefix)}
 					mocked := false
 					for _, o := range prefix {
-						if o != opGC && o%nOps <= opApply3 {
+						if o != opGC && (o%nOps <= opApply3 || o%nOps == opForeign) {
 							mocked = true
 						}
 					}
@@ -426,10 +440,16 @@ func Run(c *vk.Ctx) {
 						c.Violate(fmt.Sprintf("var=%s by_name=%v ops=%s class=%s", sp.name, byName, strings.Join(mc.Ops, ","), cls), g, mc)
 					}
 				}
-				if len(prefix) == depth || heapVars[sp.name] && len(prefix) == 5 {
-					return // heap-original variables (with the GC operation) are explored to depth 5 in both tiers
+				if len(prefix) == depth || heapVars[sp.name] && len(prefix) == heapDepth {
+					return // heap-original variables (with the GC operation): depth 4 quick, 5 thorough
 				}
 				for o := 0; o < alpha; o++ {
+					if o%nOps == opSetBad && (byName || ifaceVars[sp.name]) {
+						continue // by name a mismatching type is documented as undefined; an interface variable accepts any type
+					}
+					if o%nOps == opForeign && o/nOps > 0 {
+						continue // the foreign write does not belong to a builder: enumerate it once
+					}
 					rec(append(prefix[:len(prefix):len(prefix)], o))
 				}
 				if heapVars[sp.name] && len(prefix) > 0 && !hasGC(prefix) {
